@@ -2986,6 +2986,76 @@ func c09R5(c *Ctx) {
 			c.OK(R5, key, f.Pos(), fmt.Sprintf("s.sync is write-locked at all %d calls that use the store or mutate the file system", n))
 		}
 	}
+	// every lock of the store, the resolver and the graph that a function acquires is released on every way
+	// out (a deferred matching unlock that every return passes, or not held any more at the return): a leaked read
+	// lock blocks the next Delete/GC for ever
+	for _, rel := range []string{"content/oci", "internal/resolver", "internal/graph"} {
+		for _, f := range c09FuncsOfPkg(c.P, rel) {
+			if c09IsYieldBody(f) {
+				continue
+			}
+			acquires := false
+			for _, call := range Calls(f, func(string) bool { return true }) {
+				if _, isCall := call.(*ssa.Call); isCall {
+					if op, _ := lockOp(call); op == "L" || op == "RL" {
+						acquires = true
+					}
+				}
+			}
+			if !acquires {
+				continue
+			}
+			held := heldAt(f, heldSet{})
+			type rel struct {
+				d    ssa.Instruction
+				path string
+				op   string
+			}
+			var rels []rel
+			AllInstrs(f, func(in ssa.Instruction) {
+				d, ok := in.(*ssa.Defer)
+				if !ok {
+					return
+				}
+				if op, recv := lockOp(d); op == "U" || op == "RU" {
+					rels = append(rels, rel{d, accessPath(recv), op})
+					return
+				}
+				// a deferred helper / closure that releases a lock: counts for every held lock of that mode
+				var g *ssa.Function
+				if sc := StaticCallee(d); sc != nil {
+					g = sc
+				} else if mc, isMC := d.Call.Value.(*ssa.MakeClosure); isMC {
+					g = mc.Fn.(*ssa.Function)
+				}
+				if g != nil && inModule(g) {
+					for _, call := range Calls(g, func(string) bool { return true }) {
+						if op, _ := lockOp(call); op == "U" || op == "RU" {
+							rels = append(rels, rel{d, "*", op})
+						}
+					}
+				}
+			})
+			ok, at, what := true, f.Pos(), ""
+			for _, r := range Returns(f) {
+				for p, mode := range held[r] {
+					want := ifelse(mode == modeW, "U", "RU")
+					released := false
+					for _, rl := range rels {
+						if (rl.path == p || rl.path == "*") && rl.op == want && MustPass(r, newCut().Instr(rl.d)) {
+							released = true
+						}
+					}
+					if !released {
+						ok, at, what = false, r.Pos(), p
+					}
+				}
+			}
+			c.Check(R5, FnName(f)+"|lock-released-on-every-return", at, ok, ifelse(ok, "every lock acquired here is released (explicitly or by a deferred unlock) on every return",
+				"the function can return with "+what+" still locked: every later operation that needs the lock in write mode (Delete, GC) blocks for ever"))
+		}
+	}
+
 }
 
 // ---------------------------------------------------------------- mutants
@@ -3069,6 +3139,10 @@ var c09Mutants = []Mutant{
 		Old:    "\ts.sync.Lock()\n\tdefer s.sync.Unlock()\n\n\tdeleteQueue",
 		New:    "\ts.sync.RLock()\n\tdefer s.sync.RUnlock()\n\n\tdeleteQueue",
 		Expect: "C09.R5.exclusive|(*~/content/oci.Store).Delete"},
+	// mutation-sweep triage C2
+	{Name: "tags-leaks-read-lock", File: "content/oci/oci.go",
+		Old: "\ts.sync.RLock()\n\tdefer s.sync.RUnlock()\n\n\treturn listTags(", New: "\ts.sync.RLock()\n\n\treturn listTags(",
+		Expect: "C09.R5.exclusive|(*~/content/oci.Store).Tags|lock-released-on-every-return"},
 	// coverage review (all keep the repository's tests green)
 	{Name: "delete-untags-first-reference-only", File: "content/oci/oci.go",
 		Old: "\t\t\tuntagged = true\n", New: "\t\t\tuntagged = true\n\t\t\tbreak\n",
